@@ -1013,7 +1013,55 @@ def contract_splitlines(case):
 
 
 # ------------------------------------------------------------------------------------------------ registry
+# ================================================================================================ explicit format argument
+XF_FORMATS = ["fasta", "phylip", "paml", "gde"]
+XF_NAMES = ["aln.txt", "aln.dat", "aln.phy", "aln.fas", "aln.txt.gz", "aln.dat.bz2", "aln.fasta", "aln.phylip.gz", "data"]
+
+
+def gen_explicit_format(tier, seed):
+    for fmt in XF_FORMATS:
+        for fname in XF_NAMES:
+            for loader in ("aligned", "unaligned"):
+                yield [fmt, fname, loader]
+
+
+def contract_explicit_format(case):
+    """an explicit format= decides how a file is written and read, whatever its suffix says"""
+    import os
+    import tempfile
+
+    from cogent3 import load_aligned_seqs, load_unaligned_seqs, make_aligned_seqs
+    fmt, fname, loader = case
+    rows = {"seq_1": "ACGTACGTTAGCAT-GCATG" * 4, "seq_2": "ACGTACGATAGCATCGCATG" * 4, "s3": "ACTTACGTTAGC--CGCTTG" * 4}
+    with tempfile.TemporaryDirectory() as d:
+        path = os.path.join(d, fname)
+        try:
+            make_aligned_seqs(rows, moltype="dna").write(path, format=fmt)
+        except Exception:
+            return ("skip",)                    # writing this combination is refused: nothing to read back
+        try:
+            got = (load_aligned_seqs if loader == "aligned" else load_unaligned_seqs)(path, format=fmt, moltype="dna")
+            d_ = {k: str(v) for k, v in got.to_dict().items()}
+        except Exception as e:
+            return ("fail", f"explicit-format/{loader}/raises-{type(e).__name__}/{fmt}",
+                    f"{case}: written with format={fmt!r}, load_{loader}_seqs(format={fmt!r}) raises {type(e).__name__}: {str(e)[:160]}")
+    want = rows if loader == "aligned" else {k: v.replace("-", "") for k, v in rows.items()}
+    if fmt in ("phylip", "paml") and loader == "unaligned":
+        want = rows if set(map(len, d_.values())) == {80} else want     # parsers of aligned formats keep gaps
+    if d_ != want and {k: v.replace("-", "") for k, v in d_.items()} != {k: v.replace("-", "") for k, v in want.items()}:
+        return ("fail", f"explicit-format/{loader}/rows-differ/{fmt}", f"{case}: read {d_}, written {rows}")
+    return ("ok", True)
+
+
 BOUNDED = {
+    "explicit_format": {
+        "gen": gen_explicit_format, "contract": contract_explicit_format,
+        "functions": ["cogent3.load_aligned_seqs", "cogent3.load_unaligned_seqs", "_load_seqs (format dispatch)", "Alignment.write"],
+        "bound": "4 formats x 9 file names whose suffix is missing, unrelated to or in conflict with the format (plain, .gz, "
+                 ".bz2) x both loaders; one 3-row alignment of 80 columns",
+        "rule": "written with format=f and read with format=f gives the rows back (names, residues), whatever the suffix says",
+        "shards": 4,
+    },
     "roundtrip": {
         "gen": gen_roundtrip, "contract": contract_roundtrip,
         "functions": ["SequenceCollection.write / ArrayAlignment.write / Alignment.write (core.alignment)",
